@@ -33,6 +33,9 @@ import (
 
 type vfFwdScenario struct {
 	Mode   string `json:"mode"` // default | lcm
+	// SourceIgnoresHalfClose: the source does not end the stream when the proxy half-closes it (a hung or
+	// slow peer); the handler must still return because the proxy cancels the outgoing stream.
+	SourceIgnoresHalfClose bool `json:"source_ignores_half_close"`
 	NResp  int    `json:"n_resp"`
 	NAck   int    `json:"n_ack"`
 	MaxAdv int    `json:"max_adv"`
@@ -117,6 +120,7 @@ func vfNewFwdExec(sc vfFwdScenario, openFail bool) *vfFwdExec {
 			return errors.New("verif: cannot open source stream")
 		}
 		e.src = cs
+		cs.noAutoEOF = e.sc.SourceIgnoresHalfClose
 		e.srcMD = cs.md
 		e.opened = true
 		cs.onSend = func(m *adminservice.StreamWorkflowReplicationMessagesRequest) error {
@@ -427,8 +431,12 @@ func TestVerifC06(t *testing.T) {
 	outcomes := map[string]bool{}
 	exhaustive := true
 	var harnessErrs []string
-	for _, mode := range []string{"default", "lcm"} {
-		sc := vfFwdScenario{Mode: mode, NResp: n, NAck: n, MaxAdv: 1}
+	for _, variant := range []vfFwdScenario{{Mode: "default"}, {Mode: "lcm"}, {Mode: "default", SourceIgnoresHalfClose: true}} {
+		mode := variant.Mode
+		if variant.SourceIgnoresHalfClose {
+			mode += "+source-ignores-half-close"
+		}
+		sc := vfFwdScenario{Mode: variant.Mode, SourceIgnoresHalfClose: variant.SourceIgnoresHalfClose, NResp: n, NAck: n, MaxAdv: 1}
 		type node struct {
 			path    []string
 			enabled []string
@@ -514,6 +522,6 @@ func TestVerifC06(t *testing.T) {
 	for i := 0; i < len(os) && i < 4; i++ {
 		res.Sample(os[i*len(os)/4])
 	}
-	res.Assume("a well-behaved source ends the stream (EOF) after the proxy half-closes it; gRPC cancels the initiator's stream context when the handler returns")
+	res.Assume("gRPC cancels the initiator's stream context when the handler returns; the source either ends the stream (EOF) after the proxy half-closes it or, in the third scenario family, ignores the half-close altogether")
 	res.Assume("which case a Go select takes when both the shutdown latch and a message are ready is left to the runtime; the oracle accepts both")
 }
